@@ -83,6 +83,8 @@ def make_case(rng, cid, what):
         return source_multi_case(rng, cid)
     if "groups" in what and rng.random() < 0.25:
         return group_freevalue_case(rng, cid)
+    if "groups" in what and rng.random() < 0.2:
+        return group_define_case(rng, cid)
     for _ in range(50):
         args, globs, abbr = G.gen_config(rng)
         uses = G.gen_uses(rng, args, globs)
@@ -96,7 +98,7 @@ def make_case(rng, cid, what):
         # the generator's expectation and label travel inside the line (options both sides ignore), so that they
         # survive shrinking
         w = line.split(" ")
-        if w[1] in ("eval", "group"):
+        if w[1] in ("eval", "group", "gdef"):
             ann = ["x-lbl=" + label.replace(" ", "_")]
             if expect is not None:
                 ann.append("x-exp=" + G.hx(expect))
@@ -353,6 +355,53 @@ def group_freevalue_case(rng, cid):
     return Case(cid, lines + out)
 
 
+def group_define_case(rng, cid):
+    """definition-time cross check: the members are created first, then keys are defined in an arbitrary sequence
+    over the members; a key that equals or mismatches a key defined earlier in ANOTHER (or the same) member must be
+    refused, whichever member was created first — expectation computed here from the key sets alone"""
+    n = rng.randint(2, 4)
+    pool_s = rng.sample(G.SHORTS, 4)
+    pool_l = rng.sample(G.LONGS, 4)
+    specs = []
+    for _ in range(rng.randint(3, 7)):
+        r = rng.random()
+        if r < 0.35:
+            specs.append(rng.choice(pool_s))
+        elif r < 0.6:
+            specs.append(rng.choice(pool_l))
+        else:
+            specs.append(rng.choice(pool_s) + "," + rng.choice(pool_l))
+    defs = [(rng.randrange(n), sp) for sp in specs]
+
+    def parts(sp):
+        ps = sp.split(",")
+        sh = [x for x in ps if len(x) == 1]
+        lg = [x for x in ps if len(x) > 1]
+        return (sh[0] if sh else None, lg[0] if lg else None)
+
+    def clash(a, b):
+        (s1, l1), (s2, l2) = a, b
+        if s1 and s2 and l1 and l2:
+            return s1 == s2 or l1 == l2          # equal short keys, or a mismatch (exactly one part equal)
+        if s1 and s2:
+            return s1 == s2
+        if l1 and l2:
+            return l1 == l2
+        return False
+    seen = []
+    exp = "ok"
+    for idx, (m, sp) in enumerate(defs):
+        k = parts(sp)
+        if any(clash(k, o) for o in seen):
+            exp = None          # the class and index are left to the model; the oracle only demands a refusal here
+            bad = idx
+            break
+        seen.append(k)
+    line = "pa gdef x-lbl=gdef members=%d %s-- %s" % (
+        n, ("x-exp=" + G.hx("ok") + " ") if exp == "ok" else ("x-refuse=%d " % bad), " ".join("%d:%s" % d for d in defs))
+    return Case(cid, ["pa cfg begin abbr=1", "pa arg key=Q kind=flag", "pa cfg end", " ".join(line.split())])
+
+
 def source_multi_case(rng, cid):
     """a multi-value list argument with a finite maximum: values (key + free values, or one use per value) delivered
     by the file and/or the environment beyond the maximum, then the full share on the command line — accepted, because
@@ -414,7 +463,7 @@ BATCHES = {
 
 def generate(prop, tier, seed, scale=1):
     rng = random.Random("%s-%s" % (prop, seed))
-    n = (600 if tier == "quick" else 30000) * scale
+    n = (600 if tier == "quick" else 100000) * scale
     cases = []
     for i in range(n):
         what = {rng.choice(BATCHES[prop])}
@@ -442,6 +491,14 @@ def judge(prop, case, impl, model):
     for idx, op in enumerate(ops):
         if idx >= len(impl) or idx > first:
             break
+        rf = annotation(op, "x-refuse")
+        if rf is not None:
+            got = impl[idx]
+            if not (got.startswith("throw ") and got.endswith(" at " + rf)):
+                return [Problem("oracle", case, idx, op, got, model[idx] if idx < len(model) else None,
+                                detail="generator expectation: definition %s must be refused (a key of another or the same "
+                                       "member is taken)" % rf)]
+            continue
         e = annotation(op, "x-exp")
         if e is None:
             continue
